@@ -203,6 +203,7 @@ def stream_cases(draw, name, tier):
             "k": k,
             "flag": draw(st.booleans()),
             "src": draw(st.sampled_from(["agen", "aclass", "iter", "sized", "sized-sync"])),
+            "short_list": draw(st.booleans()),
             "keys": draw(st.sampled_from(["inc", "const", "mod"]))}
 
 
@@ -234,6 +235,8 @@ def check_stream(case):
     worst = [0, 0]
 
     def probe(step):
+        if case.get("short_list") and step <= 30:
+            return  # (the short list argument is the caller's data until the tool has read it to its end)
         alive = reg.alive_gc(bound)
         if alive > worst[0]:
             worst[0], worst[1] = alive, step
@@ -249,7 +252,13 @@ def check_stream(case):
             it = a.iter(produce, W(-1))
         else:
             S = [lazy_source(reg, n, keyfn_of(case), case["src"]) for _ in range(nsrc)]
+            if case.get("short_list") and nsrc >= 2 and name == "zip_longest":  # (chain keeps its arguments, as itertools.chain does; merge reads it as slowly as the rest)
+                # one of the sources is a short LIST that only the tool still refers to: once the tool is through
+                # with it (long before the stream ends) nothing keeps its items alive
+                kf = keyfn_of(case)
+                S[-1] = [reg.new(kf(i)) for i in range(25)]  # (used up before the first probe that counts, at step 40)
             made = builder(S, case)
+            del S
             if name in AGG:
                 # probe while the aggregation runs: wrap the source pulls
                 result = await made
